@@ -606,7 +606,6 @@ func firstDiff(a, b string) string {
 	return "different length"
 }
 
-
 // replacerPairs: fn applies a package-level strings.Replacer; returns its (old -> new) pairs from the initialiser.
 func replacerPairs(p *Program, fn *ssa.Function) (map[string]string, token.Pos, bool) {
 	if fn == nil {
